@@ -92,7 +92,15 @@ func (fl *FileList) addSingleFile(info lineInfo) error {
 
 	perms := statbuf.Mode
 	if !exists {
-		perms = defaults.Umask
+		// entry synthesised for an absent path: the usual creation mode under the umask
+		switch info.ltype {
+		case vdb.FileType_dir:
+			perms = 0777 &^ defaults.Umask
+		case vdb.FileType_symlink:
+			perms = 0777
+		default:
+			perms = 0666 &^ defaults.Umask
+		}
 	}
 	if info.hasPerm {
 		if info.andMask > 0 {
